@@ -222,6 +222,8 @@ def run(ctx):
             meta.append(('trace', '', sym, k))
     bad_idx = common.run_cases(ctx, 'tdot', IMPORTS, '', exprs, shard=60)
     tie_broken = []
+    import tie_prims
+    tie_broken += tie_prims.tie(ctx)
     if bad_idx is None:
         tie_broken.append('cases.v (contraction model vs implementation) did not evaluate')
     elif bad_idx:
